@@ -349,3 +349,24 @@ prop(
     rule="evaluations = scenarios; non-trivial = >=2 watch/unwatch calls, distinct by the sequence of watcher events (create / watch / unwatch / failures / drop)",
     tiers={"quick": {"shards": NC, "budget": 35, "min_evaluations": 800}, "thorough": {"shards": NC, "budget": 420}},
 )
+
+prop(
+    "C08",
+    title="Quit always terminates and leaves no supervised process behind",
+    engine="wxlib",
+    needs_vchild=True,
+    level="exploration",
+    level_text=("seeded scenarios on a real Watchexec instance whose action handler creates 0-4 jobs running real helper processes "
+                "(vchild: exits 0/5/20 ms after the signal or ignores it, forks grandchildren with their own reaction; plain, "
+                "process-group and session spawn options), drives each into a state {running, never started, finished, mid graceful "
+                "restart with an armed 150 ms timer, already deleted, 40 queued controls, a handle clone held by the driver}, then "
+                "requests quit() or quit_gracefully(sig, grace in {0, 100, 300 ms}) — also from the very action that created the jobs. "
+                "Readiness = each process's `start` line (written after its signal mask is set). Oracles: main() returns Ok within "
+                "1 s (abort) or armed grace + quit grace + 1 s (graceful), heartbeat-guarded; afterwards every pid that appeared in "
+                "the helper log is polled in /proc for up to 2 s: no direct child alive, and after a graceful quit of a grouped / "
+                "session command no member of its group alive. The CLI part (SIGINT/SIGTERM to the production binary) is in C05's engine"),
+    level_note=_RT_NOTE + "; termination bounds are coarse (margin 1 s)",
+    technique="runtime monitor over real child processes: bounded-progress termination check + /proc survivor scan after every quit",
+    rule="evaluations = scenarios; non-trivial = >=1 job, distinct by (quit manner, per job wrap/state/reactions)",
+    tiers={"quick": {"shards": NC, "budget": 40, "min_evaluations": 600}, "thorough": {"shards": NC, "budget": 420}},
+)
